@@ -94,11 +94,12 @@ def run(ctx):
         handle(ctx, viols, pf, "history")
     ctx.cov["samples"].append([json.loads(x) for x in hl[:6]])
     # Leg C: the same user's session used at two upstreams with different group rules at the same time, and two
-    # sessions of one user (one of them revoked) used at one upstream at the same time
+    # sessions of one user (one of them revoked) used at one upstream at the same time; two copies of one session with
+    # different stated lifetimes; and an authenticator that accepts a call and never answers (real-time probes)
     pairs_lines = 0
-    if ctx.id in ("C01", "C04"):
+    if True:
         pairs = os.path.join(ctx.scratch, "pairs.ndjson")
-        pr = V.harness(ctx, ["ps-pairs", "-out", pairs, "-seed", ctx.seed, "-n", 300 if quick else 6000, "-workers", 8])
+        pr = V.harness(ctx, ["ps-pairs", "-out", pairs, "-seed", ctx.seed, "-n", 450 if quick else 9000, "-workers", 8])
         viols, drifts, _ = V.leg_v(ctx, "ProxySessionTrace", "ProxySessionTrace.cfg", pairs, label="V-pairs")
         handle(ctx, viols, pairs, "concurrent-pair")
         pairs_lines = pr["lines"]
@@ -143,7 +144,7 @@ def replay(ctx, path):
         handle(ctx, viols, obs, "cell")
     elif rp["kind"] == "concurrent-pair":
         obs = os.path.join(ctx.scratch, "pairs.ndjson")
-        V.harness(ctx, ["ps-pairs", "-out", obs, "-seed", rp["seed"], "-n", 300 if rp["tier"] == "quick" else 6000, "-workers", 8])
+        V.harness(ctx, ["ps-pairs", "-out", obs, "-seed", rp["seed"], "-n", 450 if rp["tier"] == "quick" else 9000, "-workers", 8])
         viols, _, _ = V.leg_v(ctx, "ProxySessionTrace", "ProxySessionTrace.cfg", obs)
         handle(ctx, viols, obs, "concurrent-pair")
         print("note: a concurrent pair depends on the schedule; the whole leg was re-run with the same seed")
